@@ -14,9 +14,12 @@ import (
 type c06Esc struct {
 	VK    c06K // kind of the captured variable (int, named: integer slot; string, struct: boxed)
 	Scope int  // index in c06Scopes
-	Thing int  // 0..3: closure nested that many function literals below the variable's frame; 4: pointer
+	Thing int  // 0..3: closure nested that many function literals below the variable's frame; 4: pointer; 5: method value v.PM bound to &v (named/struct only)
 	CS    int  // closure signature, index in c06CSigs (0 for pointers)
 	Route int  // index in c06Routes
+	// Nest (optional, overrides Scope) = "owner@chain": the variable has storage class owner (c06Owners) and the thing
+	// is created inside the chain of nested frames (c06_nest.go), e.g. "param@for.blk".
+	Nest string
 }
 
 var (
@@ -29,16 +32,29 @@ func (e c06Esc) thingName() string {
 	if e.Thing == 4 {
 		return "ptr"
 	}
+	if e.Thing == 5 {
+		return "pmv"
+	}
 	return fmt.Sprintf("clo%d-%s", e.Thing, c06CSigs[e.CS])
 }
 
+func (e c06Esc) scopeName() string {
+	if e.Nest != "" {
+		return e.Nest
+	}
+	return c06Scopes[e.Scope]
+}
+
 func (e c06Esc) class() string {
-	return e.thingName() + "/" + e.VK.name() + "/" + c06Scopes[e.Scope]
+	return e.thingName() + "/" + e.VK.name() + "/" + e.scopeName()
 }
 
 func (e c06Esc) String() string { return e.class() + "/" + c06Routes[e.Route] }
 
 func (e c06Esc) nproducts() int {
+	if e.Nest != "" {
+		return 1
+	}
 	if c06Scopes[e.Scope] == "loop" || c06Scopes[e.Scope] == "forvar" {
 		return 2
 	}
@@ -50,6 +66,9 @@ func (e c06Esc) xtype(id string) string {
 	t := e.VK.typ(id)
 	if e.Thing == 4 {
 		return "*" + t
+	}
+	if e.Thing == 5 {
+		return "func(" + t + ") " + t
 	}
 	switch c06CSigs[e.CS] {
 	case "get":
@@ -68,6 +87,9 @@ func (e c06Esc) xtype(id string) string {
 func (e c06Esc) thing(id, v string) string {
 	if e.Thing == 4 {
 		return "&" + v
+	}
+	if e.Thing == 5 {
+		return v + ".PM" // pointer-receiver method of an addressable variable: binds &v
 	}
 	t := e.VK.typ(id)
 	var lit string
@@ -94,6 +116,9 @@ func (e c06Esc) use(id, x string, u int) string {
 	a, b := e.VK.lit(id, 200+u), e.VK.lit(id, 300+u)
 	if e.Thing == 4 {
 		return fmt.Sprintf("O(*%s)\n*%s = %s", x, x, a)
+	}
+	if e.Thing == 5 {
+		return fmt.Sprintf("O(%s(%s))", x, a)
 	}
 	switch c06CSigs[e.CS] {
 	case "get", "gen":
@@ -137,6 +162,69 @@ func (e c06Esc) maker(d *cw, id, m string) {
 		}
 		return fmt.Sprintf("GA%s_%s = %s", m, id, xs[0])
 	}
+	if e.Nest != "" {
+		owner, chain := e.Nest, ""
+		if i := strings.Index(owner, "@"); i >= 0 {
+			owner, chain = owner[:i], owner[i+1:]
+		}
+		if owner == "result" {
+			if route == "ret" {
+				res = " (x " + X + ", rv " + kt + ")"
+			} else {
+				res = " (rv " + kt + ")"
+			}
+		}
+		if owner == "global" {
+			d.f("var gv%s_%s %s", m, id, kt)
+		}
+		d.f("func mk%s_%s(seed int, pv %s)%s {", m, id, kt, res)
+		d.f("k := seed + 1\n_ = k")
+		if !(owner == "result" && route == "ret") {
+			d.f("var x %s", X)
+		}
+		v, closeOwner := "v", ""
+		switch owner {
+		case "param":
+			v = "pv"
+		case "local":
+			d.f("v := %s", e.VK.from(id, "seed"))
+		case "result":
+			v = "rv"
+			d.f("rv = %s", e.VK.from(id, "seed"))
+		case "global": // file-level variable: both products of the maker legitimately alias it
+			v = fmt.Sprintf("gv%s_%s", m, id)
+			d.f("%s = %s", v, e.VK.from(id, "seed"))
+		case "blockvar":
+			d.f("{\nv := %s\nw0 := 5\n_ = w0", e.VK.from(id, "seed"))
+			closeOwner = "}"
+		case "forvar":
+			d.f("for i0, v := 0, (%s); i0 < 1; i0++ {", e.VK.from(id, "seed"))
+			closeOwner = "}"
+		default:
+			panic("owner " + owner)
+		}
+		op, cl := c06Chain(chain)
+		if op != "" {
+			d.f("%s", op)
+		}
+		d.f("x = %s", e.thing(id, v))
+		if cl != "" {
+			d.f("%s", cl)
+		}
+		if closeOwner != "" {
+			d.f("%s", closeOwner)
+		}
+		switch {
+		case owner == "result" && route == "ret":
+			d.f("return x, rv")
+		case owner == "result":
+			d.f("%s\nreturn rv", deliver("x"))
+		default:
+			d.f("%s", deliver("x"))
+		}
+		d.f("}")
+		return
+	}
 	d.f("func mk%s_%s(seed int, pv %s)%s {", m, id, kt, res)
 	d.f("k := seed + 1\n_ = k")
 	switch c06Scopes[e.Scope] {
@@ -170,7 +258,11 @@ func (e c06Esc) obtain(w *cw, id, m string, el, seed int) []string {
 	call := fmt.Sprintf("mk%s_%s(%d, %s)", m, id, seed, e.VK.from(id, fmt.Sprint(seed+3)))
 	switch c06Routes[e.Route] {
 	case "ret":
-		w.f("%s := %s", strings.Join(names, ", "), call)
+		if strings.HasPrefix(e.Nest, "result") {
+			w.f("%s, _ := %s", names[0], call)
+		} else {
+			w.f("%s := %s", strings.Join(names, ", "), call)
+		}
 	case "slice":
 		w.f("%s", call)
 		g := fmt.Sprintf("GS%s_%s", m, id)
@@ -243,7 +335,13 @@ func c06EscapeProgram(id string, els []c06Esc, iv c06IV) oracle.Prog {
 	c06IVDecls(&d, id)
 	var classes, routes []string
 	makerOf := map[c06Esc]string{}
+	pmDone := map[c06K]bool{}
 	for _, e := range els {
+		if e.Thing == 5 && !pmDone[e.VK] {
+			pmDone[e.VK] = true
+			t := e.VK.typ(id)
+			d.f("func (r *%s) PM(n %s) %s {\n\told := *r\n\t*r = n\n\treturn old\n}", t, t, t)
+		}
 		classes = append(classes, e.class())
 		routes = append(routes, c06Routes[e.Route])
 		if _, ok := makerOf[e]; !ok {
@@ -292,14 +390,17 @@ func c06AllEscapes(kinds []c06K) []c06Esc {
 	var out []c06Esc
 	for _, vk := range kinds {
 		for sc := range c06Scopes {
-			for th := 0; th <= 4; th++ {
+			for th := 0; th <= 5; th++ {
 				ncs := len(c06CSigs)
-				if th == 4 {
+				if th >= 4 {
 					ncs = 1
+				}
+				if th == 5 && vk != c06Named && vk != c06Struct {
+					continue // a pointer-receiver method value needs a declared type
 				}
 				for cs := 0; cs < ncs; cs++ {
 					for rt := range c06Routes {
-						out = append(out, c06Esc{vk, sc, th, cs, rt})
+						out = append(out, c06Esc{vk, sc, th, cs, rt, ""})
 					}
 				}
 			}
@@ -311,22 +412,22 @@ func c06AllEscapes(kinds []c06K) []c06Esc {
 // c06Reduced is the alphabet of the 2- and 3-element combinations: one representative per protection mechanism
 // (closure stub kind × depth, int-slot vs boxed pointer, nested-frame scopes, routes). Quick uses the first 8.
 var c06Reduced = []c06Esc{
-	{c06Int, 1, 0, 0, 0},    // clo0-get int local ret
-	{c06Str, 2, 2, 1, 1},    // clo2-set string block slice
-	{c06Int, 1, 4, 0, 0},    // ptr int local ret
-	{c06Str, 2, 4, 0, 2},    // ptr string block global
-	{c06Int, 3, 1, 4, 0},    // clo1-gen int loop ret
-	{c06Int, 0, 3, 2, 2},    // clo3-upd int param global
-	{c06Int, 3, 4, 0, 1},    // ptr int loop slice
-	{c06Int, 4, 0, 3, 0},    // clo0-set2 int forvar ret
-	{c06Struct, 1, 0, 0, 0}, // clo0-get struct local ret
-	{c06Named, 5, 4, 0, 0},  // ptr named blockret ret
-	{c06Str, 0, 1, 2, 1},    // clo1-upd string param slice
-	{c06Int, 5, 2, 0, 2},    // clo2-get int blockret global
-	{c06Named, 2, 0, 1, 0},  // clo0-set named block ret
-	{c06Struct, 3, 4, 0, 1}, // ptr struct loop slice
-	{c06Int, 2, 3, 3, 0},    // clo3-set2 int block ret
-	{c06Str, 4, 1, 4, 2},    // clo1-gen string forvar global
+	{c06Int, 1, 0, 0, 0, ""},    // clo0-get int local ret
+	{c06Str, 2, 2, 1, 1, ""},    // clo2-set string block slice
+	{c06Int, 1, 4, 0, 0, ""},    // ptr int local ret
+	{c06Str, 2, 4, 0, 2, ""},    // ptr string block global
+	{c06Int, 3, 1, 4, 0, ""},    // clo1-gen int loop ret
+	{c06Int, 0, 3, 2, 2, ""},    // clo3-upd int param global
+	{c06Int, 3, 4, 0, 1, ""},    // ptr int loop slice
+	{c06Int, 4, 0, 3, 0, ""},    // clo0-set2 int forvar ret
+	{c06Struct, 1, 0, 0, 0, ""}, // clo0-get struct local ret
+	{c06Named, 5, 4, 0, 0, ""},  // ptr named blockret ret
+	{c06Str, 0, 1, 2, 1, ""},    // clo1-upd string param slice
+	{c06Int, 5, 2, 0, 2, ""},    // clo2-get int blockret global
+	{c06Named, 2, 0, 1, 0, ""},  // clo0-set named block ret
+	{c06Struct, 3, 4, 0, 1, ""}, // ptr struct loop slice
+	{c06Int, 2, 3, 3, 0, ""},    // clo3-set2 int block ret
+	{c06Str, 4, 1, 4, 2, ""},    // clo1-gen string forvar global
 }
 
 func c06EscapePrograms(c *core.Ctx) []oracle.Prog {
@@ -359,6 +460,83 @@ func c06EscapePrograms(c *core.Ctx) []oracle.Prog {
 					n++
 					progs = append(progs, c06EscapeProgram(fmt.Sprintf("e3x%d", n), []c06Esc{e1, e2, e3}, iv))
 				}
+			}
+		}
+	}
+	progs = append(progs, c06NestedEscapePrograms(c)...)
+	return progs
+}
+
+// c06NestedEscapePrograms: family "escape2" over the structured scopes owner@chain (c06_nest.go). Every program
+// calls ONE maker twice with different seeds (the second call reuses the frames of the first), with intervening
+// calls, and uses both products twice: a frame that was recycled although a pointer / closure / bound method
+// still refers to one of its slots shows up as aliasing between the two products, or as a poisoned value.
+//
+//	A. address of a variable: every kind (4 + the 15 other integer-slot kinds) × every distance 0..4 between the
+//	   owner frame and the frame of the & operator (the specialisations of fast/address.go are indexed by exactly
+//	   this pair); owner, chain of that depth and route rotate.
+//	B. every owner × every chain of the alphabet for the things {pointer, closure, pointer-receiver method value},
+//	   kinds rotating.
+//
+// thorough: every kind × owner × chain (all 64 pairs of wrappers) for pointers, and B with all closure signatures.
+func c06NestedEscapePrograms(c *core.Ctx) []oracle.Prog {
+	var progs []oracle.Prog
+	n := 0
+	ivs := []c06IV{{false, 1}, {true, 33}, {false, 33}}
+	add := func(e c06Esc) {
+		n++
+		progs = append(progs, c06EscapeProgram(fmt.Sprintf("enx%d", n), []c06Esc{e, e}, ivs[n%len(ivs)]))
+	}
+	owners := c06Owners
+	if c.Thorough() {
+		for _, vk := range c06AllKinds {
+			for _, ow := range owners {
+				for _, ch := range c06Chains(true) {
+					n++
+					add(c06Esc{VK: vk, Thing: 4, Route: n % len(c06Routes), Nest: ow + "@" + ch})
+				}
+			}
+		}
+	} else {
+		for ki, vk := range c06AllKinds {
+			for depth := 0; depth <= 4; depth++ {
+				chs := c06ExactChainsOfDepth(depth)
+				ch := chs[ki%len(chs)]
+				ow := owners[(ki+depth)%len(owners)]
+				add(c06Esc{VK: vk, Thing: 4, Route: (ki + depth) % len(c06Routes), Nest: ow + "@" + ch})
+			}
+		}
+	}
+	// file-level variables (the "file" specialisations of fast/address.go): every kind, the depth of the site rotating
+	for ki, vk := range c06AllKinds {
+		depths := []int{ki % 5}
+		if c.Thorough() {
+			depths = []int{0, 1, 2, 3, 4}
+		}
+		for _, depth := range depths {
+			chs := c06ChainsOfDepth(depth)
+			add(c06Esc{VK: vk, Thing: 4, Route: ki % len(c06Routes), Nest: "global@" + chs[ki%len(chs)]})
+		}
+	}
+	rot := []c06K{c06Int, c06Uint64, c06Float64, c06Bool, c06Complex128, c06Int8, c06Str, c06Uint16}
+	i := 0
+	for _, ow := range owners {
+		for _, ch := range c06Chains(false) {
+			i++
+			if !c.Thorough() { // thorough has the full pointer product above
+				add(c06Esc{VK: rot[i%len(rot)], Thing: 4, Route: i % len(c06Routes), Nest: ow + "@" + ch})
+			}
+			if c.Thorough() || c06ChainDepth(ch) <= 1 {
+				css := []int{i % len(c06CSigs)}
+				if c.Thorough() {
+					css = []int{0, 1, 2, 3, 4}
+				}
+				for _, cs := range css {
+					add(c06Esc{VK: []c06K{c06Int, c06Str}[i%2], Thing: i % 2, CS: cs, Route: i % len(c06Routes), Nest: ow + "@" + ch})
+				}
+			}
+			if c.Thorough() || c06ChainDepth(ch) <= 2 {
+				add(c06Esc{VK: []c06K{c06Named, c06Struct}[i%2], Thing: 5, Route: i % len(c06Routes), Nest: ow + "@" + ch})
 			}
 		}
 	}
